@@ -207,7 +207,12 @@ func (r *Run) Finish() int {
 		ev.Assumptions = []string{}
 	}
 	os.MkdirAll(filepath.Join(root, "evidence"), 0o755)
-	b, _ := json.MarshalIndent(ev, "", " ")
+	b, err := json.MarshalIndent(ev, "", " ")
+	if err != nil {
+		// a sample that JSON cannot express (NaN, Inf): keep the counts, drop the samples' detail
+		cov["samples"] = []any{fmt.Sprintf("%d samples could not be serialised: %v", len(r.samples), err)}
+		b, _ = json.MarshalIndent(ev, "", " ")
+	}
 	evPath := filepath.Join(root, "evidence", r.ID+".json")
 	if err := os.WriteFile(evPath, append(b, '\n'), 0o644); err != nil {
 		fmt.Fprintln(os.Stderr, "cannot write evidence:", err)
